@@ -170,11 +170,13 @@ def run(R, ctx):
     user_callbacks(R, ctx)
     lock_order(R, ctx)
     # R10.5 / R10.6
-    allowed_recv = r'start_async_fs_writer$|start_async_stdwriter$|start_cleanup_thread$'
+    # a blocking recv is acceptable only in code that runs on a helper thread of its own and never on a caller's thread
+    owners = thread_owners(cg)
+    caller_side = cg.reachable(entries, spawn=False)
     for p_, es in cg.ext.items():
         for (n, bb, t) in es:
             if re.search(r'Receiver::<T>::recv$', n):
-                R.check('R10.5', f"{root_fn(p_)}|recv", bool(re.search(allowed_recv, root_fn(p_))) and p_ != root_fn(p_), "blocking recv in a consumer loop",
+                R.check('R10.5', f"{root_fn(p_)}|recv", p_ in owners and p_ not in caller_side, "blocking recv on a helper thread's own loop",
                         f"blocking recv() outside the consumer loops in {p_}: the calling thread can hang", where=f.bodies[p_].loc(bb))
             if re.search(r'^std::cell::RefCell::<T>::borrow(_mut)?$', n):
                 R.bad('R10.6', f"{root_fn(p_)}|{n.split('::')[-1]}", f"panicking RefCell borrow in {p_} (recursive logging would panic instead of using the fallback)", where=f.bodies[p_].loc(bb))
